@@ -106,7 +106,7 @@ for op in OP:
                 props = ['C07', 'C03']
             if sink == 'drop':
                 props = props + ['C06', 'C13']
-            quick = sz == 'e8' and (sink in ('drop', 'forget') or op == 'remove') or (sz == 'z0' and op == 'remove' and sink == 'drop')
+            quick = sz == 'e8' and (sink in ('drop', 'forget') or op == 'remove') or (sz == 'z0' and op == 'remove' and sink == 'drop') or (sz == 'z0' and sink == 'forget' and op in ('remove', 'swap_remove'))
             drop = 'false' if sink == 'downcast' else 'true'
             add('k2_remove', '%s_%s_%s' % (op, sink, sz), 'remove_erased::<%s>(%s, %s, %s)' % (TY[sz], OP[op], SINK[sink], drop),
                 props=props, tier='q' if quick else 't', cost=120 if sz in SLOW else 15, inputs=IN_REM)
